@@ -3,6 +3,11 @@ package main
 import (
 	"encoding/json"
 	"fmt"
+	"go/types"
+
+	"golang.org/x/tools/go/packages"
+	"golang.org/x/tools/go/ssa"
+	"golang.org/x/tools/go/ssa/ssautil"
 	"os"
 	"os/exec"
 	"path/filepath"
@@ -71,6 +76,177 @@ func lemmaVC(P *Program, prop string) (*VC, error) {
 		o.Func = "lemma " + l.Name
 	}
 	return vc, nil
+}
+
+// staticVC: obligations decided by inspection of the SSA form of the whole repository (no solver):
+// declared-immutable fields are never stored to, and the accessor of such a field is what every
+// implementation of the interface method resolves to.
+func staticVC(P *Program, prop string) *VC {
+	var ims []*Immutable
+	for _, im := range P.spec.Immutables {
+		if hasProp(im.Props, prop) {
+			ims = append(ims, im)
+		}
+	}
+	if len(ims) == 0 {
+		return nil
+	}
+	spec := &FuncSpec{Name: "repository", Props: []string{prop}, Replay: map[string]string{}, Callee: map[string]string{}}
+	vc := newVC(P, nil, spec)
+	vc.entry = vc.newState()
+	vc.name = "repository"
+	for _, im := range ims {
+		var sites []string
+		for fn := range ssautil.AllFunctions(P.prog) {
+			home := fn
+			for home.Parent() != nil {
+				home = home.Parent()
+			}
+			if home.Pkg == nil || !strings.HasPrefix(home.Pkg.Pkg.Path(), logPath) {
+				continue
+			}
+			for _, b := range fn.Blocks {
+				for _, in := range b.Instrs {
+					st, ok := in.(*ssa.Store)
+					if !ok {
+						continue
+					}
+					if storesField(st, im.Struct, im.Field) {
+						sites = append(sites, fmt.Sprintf("%s (%s)", fn.String(), P.fset.Position(st.Pos())))
+					}
+				}
+			}
+		}
+		sort.Strings(sites)
+		text := fmt.Sprintf("no instruction of the repository stores to %s.%s (or to a whole %s) of an existing object -- the only stores initialise objects the storing function has just allocated, or package variables during package initialisation -- so the field keeps the value construction gave it", im.Struct, im.Field, im.Struct)
+		o := vc.oblige("immutable", im.Struct+"."+im.Field, im.Props, "true", "true", text, 0)
+		o.Func = "repository"
+		if len(sites) == 0 {
+			o.Static = "holds"
+		} else {
+			o.Static = "fails"
+			o.Text = text + "; stores found: " + strings.Join(sites, "; ")
+		}
+		if im.Iface != "" {
+			bad := implementationsNotVia(P, im)
+			o2 := vc.oblige("accessor", im.Iface, im.Props, "true", "true",
+				fmt.Sprintf("every type of the repository that implements %s does so by the accessor of the embedded %s (a read of %s)", im.Iface, im.Struct, im.Field), 0)
+			o2.Func = "repository"
+			if len(bad) == 0 {
+				o2.Static = "holds"
+			} else {
+				o2.Static = "fails"
+				o2.Text += "; other implementations: " + strings.Join(bad, ", ")
+			}
+		}
+	}
+	return vc
+}
+
+// storesField: does the store write field `field` of struct `structName` (directly, through a
+// sub-field, or by overwriting the whole struct)?
+func storesField(st *ssa.Store, structName, field string) bool {
+	isStruct := func(t types.Type) bool {
+		if p, ok := types.Unalias(t).Underlying().(*types.Pointer); ok {
+			t = p.Elem()
+		}
+		n, ok := types.Unalias(t).(*types.Named)
+		return ok && n.Obj().Name() == structName && n.Obj().Pkg() != nil && strings.HasPrefix(n.Obj().Pkg().Path(), logPath)
+	}
+	// initialisation is not mutation: stores into an object this very function has just allocated (a
+	// composite literal being filled in) and stores of the package initialiser into a package variable
+	root := st.Addr
+	for {
+		switch x := root.(type) {
+		case *ssa.FieldAddr:
+			root = x.X
+			continue
+		case *ssa.IndexAddr:
+			root = x.X
+			continue
+		}
+		break
+	}
+	if _, fresh := root.(*ssa.Alloc); fresh {
+		return false
+	}
+	if _, glob := root.(*ssa.Global); glob && st.Parent() != nil && st.Parent().Name() == "init" {
+		return false
+	}
+	addr := st.Addr
+	// whole-struct store
+	if isStruct(addr.Type()) {
+		return true
+	}
+	for {
+		switch x := addr.(type) {
+		case *ssa.FieldAddr:
+			if isStruct(x.X.Type()) {
+				s := types.Unalias(x.X.Type()).Underlying().(*types.Pointer).Elem().Underlying().(*types.Struct)
+				return s.Field(x.Field).Name() == field
+			}
+			addr = x.X
+			continue
+		case *ssa.IndexAddr:
+			addr = x.X
+			continue
+		}
+		return false
+	}
+}
+
+// implementationsNotVia lists the repository types implementing the interface method other than
+// through the accessor declared on the struct that owns the immutable field.
+func implementationsNotVia(P *Program, im *Immutable) []string {
+	i := strings.LastIndex(im.Iface, ".")
+	iname, mname := im.Iface[:i], im.Iface[i+1:]
+	obj := P.logPkg.Types.Scope().Lookup(iname)
+	if obj == nil {
+		return []string{"unknown interface " + iname}
+	}
+	it, ok := obj.Type().Underlying().(*types.Interface)
+	if !ok {
+		return []string{iname + " is not an interface"}
+	}
+	var bad []string
+	for _, pk := range []*packages.Package{P.logPkg, P.exprPkg} {
+		if pk == nil {
+			continue
+		}
+		sc := pk.Types.Scope()
+		for _, n := range sc.Names() {
+			tn, ok := sc.Lookup(n).(*types.TypeName)
+			if !ok || tn.IsAlias() {
+				continue
+			}
+			for _, recv := range []types.Type{tn.Type(), types.NewPointer(tn.Type())} {
+				if _, isI := tn.Type().Underlying().(*types.Interface); isI {
+					continue
+				}
+				if !types.Implements(recv, it) {
+					continue
+				}
+				sel := P.prog.MethodSets.MethodSet(recv).Lookup(pk.Types, mname)
+				if sel == nil {
+					continue
+				}
+				f, _ := sel.Obj().(*types.Func)
+				if f == nil {
+					continue
+				}
+				rs := f.Type().(*types.Signature).Recv().Type()
+				if p, ok := rs.(*types.Pointer); ok {
+					rs = p.Elem()
+				}
+				if nn, ok := types.Unalias(rs).(*types.Named); !ok || nn.Obj().Name() != im.Struct {
+					bad = append(bad, types.TypeString(recv, nil))
+				}
+				break
+			}
+		}
+	}
+	sort.Strings(bad)
+	return bad
 }
 
 type evidence struct {
@@ -148,6 +324,9 @@ func runCheck(prop, tier, repo, verif string, verbose, noReplay bool, evOut stri
 			return 0, "lemma", err
 		} else if lv != nil {
 			vcs = append(vcs, lv)
+		}
+		if sv := staticVC(P, prop); sv != nil {
+			vcs = append(vcs, sv)
 		}
 		if len(vcs) == 0 && len(errs) == 0 {
 			return 0, "no-functions", fmt.Errorf("no function under contract serves %s", prop)
